@@ -4,6 +4,7 @@
 mod c01;
 mod c02;
 mod c03;
+mod c04;
 mod c05;
 mod c06;
 mod c07;
@@ -30,6 +31,7 @@ fn main() {
         "c03" => c03::main(&args),
         "c03-worker" => c03::worker(&args),
         "c03-one" => c03::one(&args),
+        "c04" => c04::main(&args),
         "c05" => c05::main(&args),
         "c06" => c06::main(&args),
         "c07" => c07::main(&args),
